@@ -301,6 +301,30 @@ func (c *Ctx) cipherContinuity() {
 			if inLoop(cl.Block()) {
 				continue
 			}
+			// the priming read of a loop written as  p, err := Parse(r); for err == nil { ...; p, err = Parse(r) }:
+			// it uses the very reader the loop's own ParsePacket uses
+			primes := false
+			for _, c2 := range callsTo(f, modPath+"/liteclient.ParsePacket") {
+				under := func(v ssa.Value) ssa.Value {
+					for {
+						switch x := v.(type) {
+						case *ssa.MakeInterface:
+							v = x.X
+							continue
+						case *ssa.ChangeInterface:
+							v = x.X
+							continue
+						}
+						return v
+					}
+				}
+				if c2 != cl && inLoop(c2.Block()) && under(c2.Call.Args[0]) == under(cl.Call.Args[0]) {
+					primes = true
+				}
+			}
+			if primes {
+				continue
+			}
 			direct := false
 			if mi, ok := cl.Call.Args[0].(*ssa.MakeInterface); ok {
 				_, n, ok := fieldOfLoad(mi.X)
